@@ -553,6 +553,49 @@ def r6_commit_last(ctx, prog, rule_id='C09.R6'):
             r.ok(f['qname'], site, '%d exits, none rejects after the commit' % len(a.rets), file=f['file'], line=f['line'])
 
 
+def r7_failed_destroy_keeps_object(ctx, prog):
+    """C_DestroyObject can fail after all its checks passed: the file of a token object cannot be removed.  "A call that fails has no effect": the handle is dropped only after the
+    store reported the object destroyed, and the store invalidates the in-memory object only after the file is gone."""
+    r = ctx.rule('C09.R7', 'a failing C_DestroyObject keeps handle and object: both are given up only after the removal succeeded', floor=1, engine='E2 dominance')
+    f = prog.fn('SoftHSM::C_DestroyObject')
+    ctx.analysed(f)
+
+    def trig(e, st):
+        if e.get('k') == 'Call' and e.get('callee') == 'HandleManager::destroyObject':
+            return ('forget', e['l'])
+        return None
+    sf = SiteFacts(f, prog, trigger=trig, track_facts=r'destroyObject').go()
+    r.paths += sf.paths_returned
+    if not sf.sites:
+        r.undecided(f['qname'], 'handle dropped', 'no call of HandleManager::destroyObject found', file=f['file'], line=f['line'])
+    for (_, line), hits in sorted(sf.sites.items()):
+        bad = [h for h in hits if not any(t and re.match(r'destroyObject(@\d+)?\((?!handleManager)', a) for a, t in h['facts'])]
+        site = 'handle dropped@%d' % line
+        if bad:
+            r.violation(f['qname'], site, 'the handle is forgotten before the object is known to be destroyed: when the store cannot remove the object (its file cannot be deleted) the call fails with the object intact, yet its handle is invalid from then on',
+                        file=f['file'], line=line, path=bad[0]['path'])
+        else:
+            r.ok(f['qname'], site, 'after destroyObject() succeeded', file=f['file'], line=line)
+    g = prog.fn('OSToken::deleteObject')
+    ctx.analysed(g)
+
+    def trig2(e, st):
+        if e.get('k') == 'Call' and short(e.get('callee')) == 'invalidate':
+            return ('invalidate', e['l'])
+        return None
+    sf = SiteFacts(g, prog, trigger=trig2, track_facts=r'remove').go()
+    r.paths += sf.paths_returned
+    if not sf.sites:
+        r.undecided(g['qname'], 'instance invalidated', 'no invalidate() call found', file=g['file'], line=g['line'])
+    for (_, line), hits in sorted(sf.sites.items()):
+        bad = [h for h in hits if not any(t and re.match(r'remove(@\d+)?\(tokenDir,', a) for a, t in h['facts'])]
+        site = 'instance invalidated@%d' % line
+        if bad:
+            r.violation(g['qname'], site, 'the in-memory object is invalidated before its file was removed: a removal that fails leaves the object on disk but invisible and unusable in this process', file=g['file'], line=line, path=bad[0]['path'])
+        else:
+            r.ok(g['qname'], site, 'after the object file was removed', file=g['file'], line=line)
+
+
 def run(ctx):
     prog = ctx.prog('ossl-file')
     r1_cleanup(ctx, prog)
@@ -561,6 +604,7 @@ def run(ctx):
     r4_store(ctx, prog)
     r5_cleanup_target(ctx, prog)
     r6_commit_last(ctx, prog)
+    r7_failed_destroy_keeps_object(ctx, prog)
 
 
 MUTANTS = [
